@@ -339,6 +339,8 @@ def _digest_chunk(args):
 
 def digest_runs(eng, n, chunk=5):
     jobs = [(eng.cid, eng.seed, eng.tier, a, min(a + chunk, n)) for a in range(0, n, chunk)]
+    # rare scenario kinds that live at fixed run indexes beyond the first n (e.g. C12's label-layout runs)
+    jobs += [(eng.cid, eng.seed, eng.tier, a, a + 1) for a in getattr(eng.check, "DIGEST_EXTRA", ()) if a >= n]
     for part in eng.map(_digest_chunk, jobs):
         for idx, d in part:
             yield idx, d
